@@ -57,7 +57,9 @@ func checkC13(c *Ctx) {
 	r.Trusted = []string{"go/types constant evaluation", "internal/tables evaluator (composite literals, constant-trip loops, branch folding)", "spec/regional.json transcription"}
 	r.Assumptions = []string{"band constructors are reached only through band.GetConfig", "Go map-literal duplicate keys are rejected by the compiler (constant keys)"}
 	r.Rule("R1.closure", "every DR index a table refers to is a defined data-rate for the direction that uses it; version/revision keys are declared constants")
-	r.Rule("R2.fallback", "maxPayloadSizePerDR[latest][latest] exists and covers every defined DR; every version has a latest revision; the lookup falls back with the key `latest`")
+	r.Rule("R2.fallback", "maxPayloadSizePerDR[latest][latest] exists and covers every defined DR; every version has a latest revision")
+	r.Rule("R2.lookup-shape", "the lookup function falls back with the key `latest` (recognised in the `if !ok { x, ok = m[latest] }` form; what the lookup computes is decided by R7)")
+	r.Advisory("R2.lookup-shape", "R7.payload-lookup")
 	r.Rule("R3.cell", "M = N+8 (or M=N=0), N <= 242")
 	r.Rule("R3.repeater", "repeater-compatible N <= non-repeater N for the same (band, dwell, version, revision, DR)")
 	r.Rule("R3.sfmono", "within one bandwidth and one direction N does not shrink as SF decreases")
@@ -545,7 +547,7 @@ func c13FallbackKeys(c *Ctx) {
 	pk := c.Prog.Pkg("band")
 	fd := load.FuncDecl(pk, "band.GetMaxPayloadSizeForDataRateIndex")
 	if fd == nil {
-		r.Unknown("R2.fallback", "band.GetMaxPayloadSizeForDataRateIndex", "", "anchor function present", "not found")
+		r.Unknown("R2.lookup-shape", "band.GetMaxPayloadSizeForDataRateIndex", "", "anchor function present", "not found")
 		return
 	}
 	info := pk.TypesInfo
@@ -571,8 +573,13 @@ func c13FallbackKeys(c *Ctx) {
 		n++
 		tv := info.Types[ix.Index]
 		good := tv.Value != nil && tv.Value.Kind() == constant.String && constant.StringVal(tv.Value) == "latest"
-		r.Check(good, "R2.fallback", fmt.Sprintf("lookup/fallback-step-%d/%s", n, types.ExprString(ix.X)), c.Prog.Rel(ix.Pos()), "fallback indexes with the constant \"latest\"", types.ExprString(ix.Index), true)
+		r.Check(good, "R2.lookup-shape", fmt.Sprintf("lookup/fallback-step-%d/%s", n, types.ExprString(ix.X)), c.Prog.Rel(ix.Pos()), "fallback indexes with the constant \"latest\"", types.ExprString(ix.Index), true)
 		return true
 	})
-	r.Check(n == 2, "R2.fallback", "lookup/fallback-steps", c.Prog.Rel(fd.Pos()), "two fallback steps (version, revision)", fmt.Sprint(n), false)
+	if n == 2 {
+		r.OK("R2.lookup-shape", "lookup/fallback-steps", c.Prog.Rel(fd.Pos()), "two fallback steps (version, revision)", "2", false)
+	} else {
+		// the lookup is written some other way: what it computes is decided by R7.payload-lookup
+		r.Unknown("R2.lookup-shape", "lookup/fallback-steps", c.Prog.Rel(fd.Pos()), "two fallback steps (version, revision) of the form `if !ok { x, ok = m[latest] }`", fmt.Sprintf("%d steps of that form", n))
+	}
 }
